@@ -812,12 +812,20 @@ class C03(Property):
         "state) is evaluated on those tables per case, in Lean and in Python, not proved for all inputs",
         "the state set_flat() leaves (and a set() that raised half-way) is read from the real element and given to the model, which "
         "checks `shapedB` on it",
+        "natives of unusual types (UserString, object with __str__ only, str / int / float / Decimal / date subclasses with their own "
+        "__str__, IntEnum members, Fraction, aware time, bytes, bytearray) are opaque atoms for the model, carrying their full tagged "
+        "description ('x:{json}'); the adapt-table rows for them are computed by re-building the object from that description and handing it "
+        "to the real class, also when such an object is the exported .value (a date subclass / str subclass instance kept by the leaf).  They "
+        "are generated at leaf positions only (the model treats atoms as non-iterable; UserString / bytes / str subclasses are iterable)",
     ]
     assumptions = [
         "MultiValue excluded (the property says so)",
         "inputs: dicts (text keys; ints / None / tuples as extra keys), lists / tuples / generators of pairs (2-item lists, 2-tuples, "
         "2-character texts; wrong arity and non-iterable items), namedtuples, repeated keys, lists / tuples / generators for sequences, "
         "texts, scalar natives, None; other iterables and dict-likes (custom classes with keys()/items()) are not generated",
+        "12% of the leaf / DateYYYYMMDD values are natives of unusual but legitimate types (scalars_g6.random_exotic, mostly suiting the "
+        "leaf's kind, padded with ASCII / non-ASCII whitespace; U+0085 / U+2028 / U+2029 paddings left to C04: the driver output of this "
+        "check carries raw text lines); bytes are not handed to Date / Time / DateTime / DateYYYYMMDD (KF-C04-e: set() raises TypeError)",
         "field names of a Dict are texts, distinct (Dict.of enforces it); 'strict' policy not combined with SparseDict",
         "the element's history before the set() of the property: set() on the element, set_flat() ('_' separator, keys from the "
         "schema's flattened names), a member's own set() at any path, item assignment with native values on Dict / SparseDict / "
@@ -834,6 +842,8 @@ class C03(Property):
             "quantifier names (dict, pair lists with list / tuple / 2-character-text items, namedtuple, generator, partial key sets, "
             "repeated keys, non-text keys, hostile shapes); about 35% of the elements have a history of 1-3 steps before that set() "
             "(set / set_flat / member set() / item assignment, with valid, unadaptable and empty inputs; then often a PARTIAL set()); "
+            "12% of leaf values are natives of unusual types (UserString, subclasses with their own __str__, IntEnum, Fraction, datetime / date "
+            "subclass / aware time, bytes; tags exotic-*); "
             "non-trivial = set() returned True on a container holding at least 2 leaves; distinct = canonical case JSON")
     quick_n = 25000
     thorough_n = 150000
